@@ -332,7 +332,14 @@ impl X {
             X::QCol(t, c) => PX::Col(vec![t.clone(), c.clone()]),
             X::Star => PX::Col(vec!["*".into()]),
             X::Cust(w) => PX::Kw(w.clone()),
-            X::Val(_) | X::Exists(..) | X::InSub(..) | X::Scalar(_) | X::AsEnum(..) | X::CustWith(..) => {
+            X::AsEnum(t, e) => {
+                if d == Dialect::Postgres {
+                    PX::Cast(Box::new(e.expected(d)), format!("ID<{t}>"))
+                } else {
+                    e.expected(d)
+                }
+            }
+            X::Val(_) | X::Exists(..) | X::InSub(..) | X::Scalar(_) | X::CustWith(..) => {
                 unimplemented!("statement-level nodes are compared through the reference renderer, not expected()")
             }
         }
